@@ -235,5 +235,31 @@ func runC09(r *core.Run) {
 		if imp.Status == 204 {
 			c.Violation("C09/tampered-export-accepted-by-import:"+field, map[string]any{"field": field, "type": typ, "stream": strings.Join(lines, "\n")})
 		}
+		// the same logs in the same transmission order (so every hash still chains from the log sent just
+		// before it: the id is not part of what is hashed), but the ids of the last two swapped: accepting
+		// it would store a chain that is not linear in id order
+		orig := strings.Split(strings.TrimSpace(string(exp.Body)), "\n")
+		if n := len(orig); n >= 2 {
+			var a, b map[string]any
+			da, db := json.NewDecoder(strings.NewReader(orig[n-2])), json.NewDecoder(strings.NewReader(orig[n-1]))
+			da.UseNumber()
+			db.UseNumber()
+			if da.Decode(&a) == nil && db.Decode(&b) == nil {
+				a["id"], b["id"] = b["id"], a["id"]
+				ja, _ := json.Marshal(a)
+				jb, _ := json.Marshal(b)
+				stream := strings.Join(append(append([]string{}, orig[:n-2]...), string(ja), string(jb)), "\n") + "\n"
+				_ = e.CreateLedger("reo", "b3", fs)
+				imp := e.Do("POST", "/v2/reo/logs/import", []byte(stream), nil)
+				r.Count("imports_with_ids_out_of_order_but_hashes_chained_in_transmission_order", 1)
+				r.Seen("out_of_order_import_status", fmt.Sprint(imp.Status))
+				if imp.Status == 500 && len(imp.Body) == 0 {
+					e.C.AbortAll()
+				}
+				if imp.Status == 204 {
+					c.Violation("C09/import-accepted-a-stream-whose-log-ids-do-not-increase", map[string]any{"stream": stream})
+				}
+			}
+		}
 	})
 }
